@@ -33,6 +33,25 @@ fn p_next_slice() {
     kani::cover!(k == 0, "at the start");
 }
 #[kani::proof]
+#[kani::unwind(6)]
+fn p_next_filtered() {
+    // sources whose size_hint is (0, Some(n)) with items left: filter / skip_while
+    let arr: [u32; 3] = kani::any();
+    let mut src = arr.iter().copied().filter(|x| x % 2 == 0);
+    let mut twin = arr.iter().copied().filter(|x| x % 2 == 0);
+    {
+        let mut c = CIterator::new(&mut src);
+        assert!(c.next() == twin.next(), "C15 filtered source: first item");
+        assert!(c.next() == twin.next(), "C15 filtered source: second item");
+    }
+    assert!(src.next() == twin.next(), "C15 filtered source advanced exactly as the twin");
+    let mut s2 = arr.iter().copied().skip_while(|x| *x > 100);
+    let mut t2 = arr.iter().copied().skip_while(|x| *x > 100);
+    let r = { let mut c = CIterator::new(&mut s2); c.next() };
+    assert!(r == t2.next(), "C15 skip_while source: first item");
+    kani::cover!(arr[0] % 2 == 0 && arr[1] % 2 == 1 && arr[2] % 2 == 0, "gap in the middle");
+}
+#[kani::proof]
 fn p_next_range() {
     let lo: u32 = kani::any();
     let hi: u32 = kani::any();
